@@ -9,9 +9,15 @@
 (*   Enqueue   a message was stored (Envelope.Attempt preset = att0)       *)
 (*   Lease     the dispatcher's Dequeue returned these (id, lease, att)    *)
 (*   Deliver   the Deliverer was invoked for (id, lease, att) and returned *)
-(*             res; wire = requests that reached the transport.  Only the  *)
-(*             OBSERVED result counts (through the real HTTPDeliverer a    *)
-(*             loaded machine may turn an intended answer into a timeout)  *)
+(*             res; wire = requests that reached the first hop, dwire =    *)
+(*             requests that reached a destination the policy denies,      *)
+(*             redir = a redirect hop (not the target itself) was denied.  *)
+(*             Only the OBSERVED result counts (through the real           *)
+(*             HTTPDeliverer a loaded machine may turn an intended answer  *)
+(*             into a timeout).  A policy denial is observed at the        *)
+(*             transport (the call failed although nothing reached the     *)
+(*             denied destination), not read off the returned error chain: *)
+(*             whether the dispatcher recognises it is what is checked.    *)
 (*   Record    the dispatcher called RecordAttempt                         *)
 (*   Settle    the dispatcher issued a lease mutation (single or as part   *)
 (*             of a batch); post = the message as dumped right after it    *)
@@ -111,7 +117,9 @@ TraceDeliver ==
         \* at most retry.max+1 sends per enqueue/requeue cycle (not claimed under injected store faults)
         /\ Chk("sendbound", Faulty \/ m.sends + 1 <= MaxOfT(m.tg) + 1)
         /\ Chk("result-domain", ClassOf(e.res) \in Classes)
-        /\ Chk("denied-nothing-sent", e.res.kind = "denied" => e.wire = 0)
+        \* a denial means the denied destination saw nothing: no request at all when the target itself is denied,
+        \* exactly the one request to the (admitted) first hop when a later redirect hop is denied
+        /\ Chk("denied-nothing-sent", e.res.kind = "denied" => (e.dwire = 0 /\ e.wire = (IF e.redir THEN 1 ELSE 0)))
         /\ M' = IF e.id \in DOMAIN M THEN Upd(e.id, [m EXCEPT !.sends = @ + 1, !.res = e.res]) ELSE M
   /\ UNCHANGED <<C, xlog>>
 
